@@ -303,6 +303,7 @@ Section Cover.
   Qed.
 
   Theorem dict_id_covers p w ec : In (w, ec) (dict_ids cfg tk t p) ->
+    (exists rr, SS.src_row ds w = Some rr) /\
     exists pre post, t = pre ++ SS.src_key ds w ++ post /\ length pre = p /\ ec = length (pre ++ SS.src_key ds w).
   Proof.
     unfold dict_ids. destruct (Nat.ltb_spec p (length t)) as [Hp|Hp]; [|intros []].
@@ -327,13 +328,15 @@ Section Cover.
     assert (Hi : N.to_nat i < length rows) by (apply nth_error_Some; congruence).
     assert (Hrows_small : (N.of_nat (length rows) <= CR.DIC)%N).
     { unfold SD.srcs_ok in Hsrc. rewrite Forall_forall in Hsrc. exact (proj2 (Hsrc rows (nth_error_In _ _ Hrows))). }
-    assert (Hkey : SS.src_key ds (stamp (N.of_nat d) i) = CR.r_surface rr).
-    { unfold SS.src_key, SS.src_row. destruct (stamp_parts HL (N.of_nat d) i) as [-> ->].
+    assert (Hrow : SS.src_row ds (stamp (N.of_nat d) i) = Some rr).
+    { unfold SS.src_row. destruct (stamp_parts HL (N.of_nat d) i) as [-> ->].
       rewrite (N.mod_small (N.of_nat d)) by lia.
       rewrite (N.mod_small i) by (change (2 ^ 28)%N with CR.DIC; lia).
       unfold SS.rows_of. rewrite Nat2N.id. rewrite (nth_error_nth _ _ [] Hrows).
       replace (i <? N.of_nat (length rows))%N with true by (symmetry; apply N.ltb_lt; lia).
-      now rewrite Err. }
+      exact Err. }
+    split; [exists rr; exact Hrow|].
+    assert (Hkey : SS.src_key ds (stamp (N.of_nat d) i) = CR.r_surface rr) by (unfold SS.src_key; now rewrite Hrow).
     rewrite Hkey. set (k := CR.r_surface rr) in *.
     (* the text splits at p; the key is a prefix of the rest *)
     set (pre := firstn p t). set (rest := skipn p t).
@@ -380,7 +383,8 @@ Section SplitInput.
      path-rewrite plugin) or is the dictionary candidate its id was looked up for: it covers the key of its word *)
   Theorem path_nodes_cover_their_keys a : pre_split cfg tk t = Ok a ->
     forall nd, In nd (pr_split_in a) ->
-      SS.dic_part (Sp.wid nd) = 15%N \/ SD.covers t nd (SS.src_key ds (Sp.wid nd)).
+      SS.dic_part (Sp.wid nd) = 15%N \/
+      ((exists rr, SS.src_row ds (Sp.wid nd) = Some rr) /\ SD.covers t nd (SS.src_key ds (Sp.wid nd))).
   Proof.
     intros Ha nd Hin.
     pose proof (path_pairs cfg tk t Hwf a Ha) as Hpairs.
@@ -393,7 +397,8 @@ Section SplitInput.
     destruct Hx as ([m w] & Hy & ->). cbn [fst snd] in *.
     rewrite Forall_forall in Hpairs. destruct (Hpairs _ Hy) as [(ec & Hd & Hec) | (q' & Hq)]; cbn [fst snd] in *.
     2:{ left. rewrite Hq. apply oov_id_dic. exact HL. }
-    right. destruct (dict_id_covers cfg Hcfg HL tk t Hsc ds Hcert Hnd Hsrc _ _ _ Hd) as (pre & post & Ht & Hp & He).
+    right. destruct (dict_id_covers cfg Hcfg HL tk t Hsc ds Hcert Hnd Hsrc _ _ _ Hd) as (Hrr & pre & post & Ht & Hp & He).
+    split; [exact Hrr|].
     apply node_eqb_coords in Heq. destruct Heq as (E1 & E2 & E3 & E4).
     unfold result_node in E1, E2, E3, E4. cbn [Rw.nb Rw.ne Rw.bb Rw.be] in E1, E2, E3, E4.
     set (k := SS.src_key ds w) in *.
@@ -425,17 +430,19 @@ Section SplitInput.
 
   Definition units_declared_ok (m : Sp.mode) : Prop :=
     match m with
-    | Sp.ModeA => forall w, 2 <= length (SS.ld_units cs nsp po true w) -> SS.rows_units_ok ds true w = true
-    | Sp.ModeB => forall w, 2 <= length (SS.ld_units cs nsp po false w) -> SS.rows_units_ok ds false w = true
+    | Sp.ModeA => forall w rr, SS.src_row ds w = Some rr ->
+                    2 <= length (SS.ld_units cs nsp po true w) -> SS.rows_units_ok ds true w = true
+    | Sp.ModeB => forall w rr, SS.src_row ds w = Some rr ->
+                    2 <= length (SS.ld_units cs nsp po false w) -> SS.rows_units_ok ds false w = true
     | Sp.ModeC => True
     end.
 
   Theorem rows_mode_wf_of_lookup a m : pre_split cfg tk t = Ok a -> units_declared_ok m ->
     rows_mode_wf ds cs nsp po t m (pr_split_in a).
   Proof.
-    intros Ha Hu. destruct m; cbn [rows_mode_wf units_declared_ok] in *; [| |exact I]; intros nd Hin Hl; (split; [exact (Hu _ Hl)|]);
-      (destruct (path_nodes_cover_their_keys a Ha nd Hin) as [H15|Hc]; [|exact Hc]);
-      rewrite (no_units_outside _ _ H15) in Hl; cbn in Hl; lia.
+    intros Ha Hu. destruct m; cbn [rows_mode_wf units_declared_ok] in *; [| |exact I]; intros nd Hin Hl;
+      (destruct (path_nodes_cover_their_keys a Ha nd Hin) as [H15|[(rr & Hrr) Hc]];
+       [rewrite (no_units_outside _ _ H15) in Hl; cbn in Hl; lia | split; [exact (Hu _ rr Hrr Hl) | exact Hc]]).
   Qed.
 End SplitInput.
 
